@@ -533,6 +533,7 @@ class Orchestrator:  # thailint: ignore[srp]
     def _ensure_rules_discovered(self) -> None:
         """Ensure rules have been discovered and registered (lazy initialization)."""
         if not self._rules_discovered:
+            get_ignore_parser(self.project_root)  # rules created now share this project's parser
             self.registry.discover_rules("src.linters")
             self._rules_discovered = True
 
